@@ -1,7 +1,7 @@
-from specs.common import run, ASSUME_COMMON
+from specs.common import run, memcheck, ASSUME_COMMON
 
 # Floors: at most one third of the minimum seen over VERIF_SEED in {1,2,3,7,42,1000,65537,2^31-1}.
-_Q = {"fref_copies_outliving_or_rebound_source": 5000, 
+_Q = {"fref_copies_outliving_or_rebound_source": 5000, "var_visit_shape_combinations": 100000, 
     "sv_substr_throws": 7000, "sv_substr_returns": 20000, "sv_compare_high_vs_low": 3000, "sv_compare_prefix": 12000,
     "sv_compare_pos_throws": 7000, "sv_compare_cstr": 12000, "sv_find_found_from_nonzero_pos": 3000, "sv_find_absent": 20000,
     "sv_equal_true": 5000, "sv_equal_false": 15000, "sv_hash": 15000,
@@ -36,7 +36,8 @@ _Q = {"fref_copies_outliving_or_rebound_source": 5000,
 _T = {k: v * 60 for k, v in _Q.items()}
 
 SPEC = {
-    "runs": [run("e1-lockstep", "c20_nostd", "asan", 10000, 1000000, need_lib=False)],
+    "runs": [run("e1-lockstep", "c20_nostd", "asan", 10000, 1000000, need_lib=False),
+             memcheck("c20_nostd", 600, 30000, need_lib=False)],
     "floors": {"quick": _Q, "thorough": _T},
     "engine": "E1 model-oracle",
     "technique": ("std counterparts driven in lock-step with the nostd types under ASan+UBSan+LSan: std::string_view, an "
